@@ -4,6 +4,7 @@ package refmodel
 // configuration JSON, and the reference filter predicate.
 
 import (
+	"fmt"
 	"bytes"
 	"encoding/hex"
 	"math/big"
@@ -39,6 +40,9 @@ type SourceRef struct {
 	Name  string
 	Start uint64
 	Stop  uint64
+	// Pad > 0: start and stop are written as quoted decimal strings left-padded with zeros
+	// to this width (numbers may come as strings, e.g. from environment variables)
+	Pad int
 }
 
 // Decl is one integration declaration.
@@ -152,6 +156,10 @@ func (d *Decl) JSON() map[string]any {
 	}
 	var srcs []any
 	for _, s := range d.Sources {
+		if s.Pad > 0 {
+			srcs = append(srcs, map[string]any{"name": s.Name, "start": fmt.Sprintf("%0*d", s.Pad, s.Start), "stop": fmt.Sprintf("%0*d", s.Pad, s.Stop)})
+			continue
+		}
 		srcs = append(srcs, map[string]any{"name": s.Name, "start": s.Start, "stop": s.Stop})
 	}
 	m["sources"] = srcs
